@@ -373,8 +373,8 @@ def py_matches(v, ve, inst):
 
 class Spec(pipeprops.PropSpec):
     pid = "C03"
-    theorems = ("C03_mode_off_keeps_cards, C03_relaxed_card_sound, C03_cardinalities, C03_conformance_partial "
-                "(Props/C03.v)")
+    theorems = ("C03_mode_off_keeps_cards, C03_mode_on_off, C03_relaxed_card_sound, C03_cardinalities(_binary64), "
+                "C03_opt_at_most_one, C03_conformance_partial(_exact), C03_conformance_checked (Props/C03.v)")
     projection = staticmethod(pipeprops.proj_figures)
     projection_name = ("full canonical structure: per shape label, instance count, constraints (direction, predicate, "
                        "value expression, cardinality, figures) and comments, order included; both runs (mode on / off)")
@@ -388,7 +388,14 @@ class Spec(pipeprops.PropSpec):
             "class with >= 2 instances and some non-typing triple")
     assumptions = ["the ShExC text is parsed back by the harness canonicaliser (pipe.canon); a line it cannot parse "
                    "is reported as a failure", "typing = every selected instance paired with the label of each of its "
-                   "classes (pipespec.spec_instances / shape_label, recomputed from the triples)"]
+                   "classes (pipespec.spec_instances / shape_label, recomputed from the triples)",
+                   "C03_conformance_partial is conditional on the profile characterisation (premise profile_exact = P1, "
+                   "Proofs/ProfileChar.v); its boolean mirror profile_exactb is evaluated by the extracted model on "
+                   "every generated input whose configuration is in the domain (entry c03_premises) and must hold "
+                   "whenever strict_domb does; Coq's strict_domb and this module's graph_in_domain must agree on "
+                   "every such input (disagreement = internal error)",
+                   "the schema the theorems speak about (Model/SchemaOf.schema_of of the model's shapes) is compared "
+                   "with the schema parsed from the implementation's text on every such input (entry c03_model_schema)"]
 
     def gen_cases(self, tier, rnd):
         cases = []
@@ -521,4 +528,41 @@ class Spec(pipeprops.PropSpec):
 
 
 def run(tier, seed, replay=None):
-    return pipeprops.run_property(Spec(), tier, seed, replay)
+    spec = Spec()
+    rc = pipeprops.run_property(spec, tier, seed, replay)
+    if replay is None:
+        annotate_evidence(spec, tier, seed)
+    return rc
+
+
+def annotate_evidence(spec, tier, seed):
+    """C03-specific coverage figures, measured on the cases of this run (regenerated from the seed)"""
+    import json
+    import os
+    from vp import core
+    path = os.path.join(core.EVID, "C03.json")
+    try:
+        with open(path) as f:
+            ev = json.load(f)
+    except Exception:
+        return
+    cases = spec.gen_cases(tier, random.Random(seed))
+    streams = collections.Counter(c["meta"]["stream"] for c in cases)
+    strict = sum(1 for c in cases if strict_dom(c["runs"][0][0], c["runs"][0][1]))
+    monitored = sum(1 for c in cases if cfg_in_domain(c["runs"][0][1]))
+    graphs = len({pipe.nt_doc(c["runs"][0][0]) for c in cases})
+    cov = ev["coverage"]
+    cov["input_distribution"] = {"cases_by_stream": dict(streams), "cases_inside_strict_dom": strict,
+                                 "cases_outside_strict_dom": len(cases) - strict, "distinct_graphs": graphs,
+                                 "runs_per_case": 2, "switch_assignments": 16}
+    cov["premises_monitored_cases"] = monitored
+    cov["validator"] = "extracted Spec/ShexSem.valid_typingb / pair_ok / explain (entry c03_validate)"
+    if tier == "thorough":
+        cov["exhaustive"] = True
+        cov["exhaustive_subspace"] = ("all graphs with class A of 1-3 IRI subjects, one property, every assignment of a "
+                                      "subset of a 3-value pool to every subject, for 5 pools (literals of two datatypes; "
+                                      "two IRI instances of a class B + a literal; two blank-node instances of B + a "
+                                      "literal; two untyped IRIs + a literal; two untyped blank nodes + a literal) x all "
+                                      "16 switch assignments: %d cases; the random streams are sampled" % streams["exhaustive"])
+    with open(path, "w") as f:
+        json.dump(ev, f, indent=1, default=str)
